@@ -2,14 +2,24 @@
    Only statements; proofs by `exact`.  `feed parse` is one read of the connection followed by
    streamConn.Dispatch (Lib/Seg.v); bolt_parse / boltv2_parse are derived from the decoder models. *)
 From Coq Require Import List NArith Bool Permutation.
-From MV Require Import Lib.Bytes Lib.Dec Lib.Seg Gen.ProtoConsts Gen.CodecSrc Model.HeaderKV Model.Bolt Model.Xcodecs
+From MV Require Import Lib.Bytes Lib.Dec Lib.Seg Model.CodecParams Model.HeaderKV Model.Bolt Model.Xcodecs
   Proofs.HeaderKV Proofs.Bolt Proofs.Xcodecs Model.Matchers Proofs.Matchers.
+(* the generated files are only Required (never imported): every name below is the committed expected value of
+   Model/CodecParams.v unless it is qualified with MV.Gen. *)
+From MV Require Gen.ProtoConsts Gen.CodecSrc.
 (* the comparison functions used by the correspondence shards: imported so that they are rebuilt with this file *)
 From MV Require Model.BoltCheck Model.XCheck.
 Import ListNotations.
 Open Scope N_scope.
 
-Theorem c07_codec_translators_ok : ProtoConsts_translator_ok = true /\ CodecSrc_translator_ok = true.
+Theorem c07_codec_translators_ok : MV.Gen.ProtoConsts.ProtoConsts_translator_ok = true /\ MV.Gen.CodecSrc.CodecSrc_translator_ok = true.
+Proof. exact (conj eq_refl eq_refl). Qed.
+
+(* THE TIE of the constants and source shapes: what the translators read from /repo on this run equals, by conversion, the
+   values the models are written with and the theorems below are proved about (Model/CodecParams.v): field offsets, header
+   lengths, magic numbers, HTTP method set, HTTP/2 preface; and every repaired spot still has its repaired shape *)
+Theorem c07_codec_gen_matches_expected :
+  MV.Gen.ProtoConsts.ProtoConsts_all = ProtoConsts_all /\ MV.Gen.CodecSrc.CodecSrc_all = CodecSrc_all.
 Proof. exact (conj eq_refl eq_refl). Qed.
 
 (* prefix stability: a decision of Decode on the buffered bytes (frame of n bytes / error / error reply) is never
@@ -78,8 +88,8 @@ Qed.
 (* ===== dubbo, dubbo-thrift, tars (framing level; body parsers hess / tp / st / rp are arbitrary functions of the
    frame bytes).  These framers never answer reply-and-return, so the theorems have no side condition. ===== *)
 Theorem c07_codec_src_repaired :
-  dubbo_cmp_int = true /\ thrift_len_has_prefix = true /\ thrift_copies_frame = true /\
-  tars_reader_in_frame = true /\ tars_stype_in_frame = true.
+  MV.Gen.CodecSrc.dubbo_cmp_int = true /\ MV.Gen.CodecSrc.thrift_len_has_prefix = true /\ MV.Gen.CodecSrc.thrift_copies_frame = true /\
+  MV.Gen.CodecSrc.tars_reader_in_frame = true /\ MV.Gen.CodecSrc.tars_stype_in_frame = true.
 Proof. exact (conj eq_refl (conj eq_refl (conj eq_refl (conj eq_refl eq_refl)))). Qed.
 
 (* dubbo: dubbo_parse_nz is the decoder model with a zero-length "frame" (only possible with >= 4 GiB buffered,
@@ -140,12 +150,12 @@ Proof. eexists. split; [unfold frame_bytes_ok; cbn [fst snd]; vm_compute; reflex
 (* ===== protocol matchers and automatic protocol detection ===== *)
 (* stream/xprotocol/conn.go Dispatch has the shape of Lib/Seg.v drain: after handleError answered a request the loop
    goes on in a new stream context; it returns only when the connection was closed *)
-Theorem c07_dispatch_shape_ok : dispatch_continues_after_reply = true /\ dispatch_progress_guard = true.
+Theorem c07_dispatch_shape_ok : MV.Gen.CodecSrc.dispatch_continues_after_reply = true /\ MV.Gen.CodecSrc.dispatch_progress_guard = true.
 Proof. exact (conj eq_refl eq_refl). Qed.
 
 (* protocol/api.go SelectStreamFactoryProtocol has the shape of Model/Matchers.v `select` (read from the source):
    the first accepting factory wins, otherwise EAGAIN iff some matcher said EAGAIN, otherwise FAILED *)
-Theorem c07_select_shape_ok : select_shape_ok = true.
+Theorem c07_select_shape_ok : MV.Gen.CodecSrc.select_shape_ok = true.
 Proof. exact eq_refl. Qed.
 
 (* every matcher (bolt, boltv2, dubbo, dubbo-thrift, tars, HTTP/1, HTTP/2) is monotone on prefixes:
@@ -178,7 +188,7 @@ Theorem c07_select_function_of_bytes :
   (forall b e order p, wf_bytes (b ++ e) -> select order b = SelProto p -> select order (b ++ e) = SelProto p).
 Proof. exact (conj select_order_independent_wf select_prefix_stable_wf). Qed.
 Print Assumptions c07_select_function_of_bytes.
-Theorem c07_thrift_matcher_src_repaired : thrift_match_first_zero = true.
+Theorem c07_thrift_matcher_src_repaired : MV.Gen.CodecSrc.thrift_match_first_zero = true.
 Proof. exact eq_refl. Qed.
 (* the matcher before the repair accepted a bolt frame that carries 0xda 0xbc at offset 4..5 (version byte, request id) *)
 Theorem c07_unrepaired_thrift_matcher_collides :
